@@ -276,6 +276,29 @@ func (e *TCPEnd) WriteCuts(data []byte, cuts []int) {
 	e.DeliverCuts(data, cuts)
 }
 
+// WriteExact sends bytes as one segment arriving after exactly lat (no
+// fault draw): lets the harness make several arrivals simultaneous.
+func (e *TCPEnd) WriteExact(data []byte, lat time.Duration) {
+	if e.closed || e.reset || len(data) == 0 {
+		return
+	}
+	e.Writes++
+	e.Written = append(e.Written, data...)
+	n := e.n
+	seg := data
+	e.arriveAfter(lat, func(p *TCPEnd) {
+		if p.closed || p.reset {
+			return
+		}
+		if p.Proxy {
+			p.rbuf = append(p.rbuf, seg...)
+			n.event("tcp-arrive", e.Local.String(), p.Local.String(), e.ID, strconv.Itoa(len(seg)))
+		} else if p.OnData != nil {
+			p.OnData(seg)
+		}
+	})
+}
+
 func (e *TCPEnd) Close() { e.doClose() }
 
 // Reset aborts the connection: both ends see errors from now on.
